@@ -25,6 +25,10 @@ import (
 // same meaning in the gRPC-Web, gRPC-HTTP2, and Connect protocols.
 const flagEnvelopeCompressed = 0b00000001
 
+// maxEnvelopePreallocation caps how much buffer space we reserve on the
+// strength of an envelope's length prefix alone.
+const maxEnvelopePreallocation = 4 * 1024 * 1024
+
 var errSpecialEnvelope = errorf(
 	CodeUnknown,
 	"final message has protocol-specific flags: %w",
@@ -214,7 +218,14 @@ func (r *envelopeReader) Read(env *envelope) *Error {
 		return errorf(CodeInvalidArgument, "message size %d is larger than configured max %d", size, r.readMaxBytes)
 	}
 	if size > 0 {
-		env.Data.Grow(size)
+		// Pre-allocate, but don't take the peer's word for more than a modest
+		// amount: CopyN grows the buffer as the bytes actually arrive, and a
+		// five-byte prefix shouldn't be able to make us allocate gigabytes.
+		if size <= maxEnvelopePreallocation {
+			env.Data.Grow(size)
+		} else {
+			env.Data.Grow(maxEnvelopePreallocation)
+		}
 		// At layer 7, we don't know exactly what's happening down in L4. Large
 		// length-prefixed messages may arrive in chunks, so we may need to read
 		// the request body past EOF. We also need to take care that we don't retry
